@@ -12,13 +12,15 @@ from checks import fs_lattice as L
 
 PROP = "C16"
 LEVEL = "exploration"
-RULE = ("8 templates (flat, year dir, y/m/d, y/m/d/h, fixed dir, discrete, "
-        "user placeholder in file name, full end under day dirs) + a "
+RULE = ("9 templates (flat, year dir, y/m/d, y/m/d/h, fixed dir, discrete, "
+        "user placeholder in file name, full end under day dirs, coverage "
+        "from time_coverage=9 h) + a "
         "single-file fileset x 3 windows x populations (whole pool; every "
         "subset of size <=3 of the 7-9 file pool; quick: size <=2 in the year-end window, singles in the others) x "
         "every lattice instant and the instant +- one name-resolution unit x "
         "{no filter, white, black (user-placeholder template), each file "
-        "excluded by name}; find_closest and fileset[t] / fileset[t, "
+        "excluded by name, for each file a period excluded that lies "
+        "inside its coverage after its start}; find_closest and fileset[t] / fileset[t, "
         "filters]. Non-trivial = the neighbourhood holds >= 2 candidate "
         "files, or no file covers t; distinct by construction.")
 ASSUMPTIONS = [
@@ -32,12 +34,15 @@ ASSUMPTIONS = [
 ]
 
 TNAMES = ["flat", "year", "ymd", "ymdh", "fixed", "discrete", "satfile",
-          "fullend_day"]
+          "fullend_day", "extended"]
 
 
 def passes(f, opts):
     if f.path in opts.get("exclude_names", ()):
         return False
+    for p0, p1 in opts.get("exclude_periods", ()):
+        if f.t0 <= p1 and f.t1 >= p0:
+            return False
     wl = opts.get("white")
     if wl is not None and f.attrs.get("sat") not in wl:
         return False
@@ -79,9 +84,18 @@ def option_sets(tname, files, single=False):
         out += [("white=A", {"sat": "A"}, {}, dict(white=["A"])),
                 ("white=B", {"sat": "B"}, {}, dict(white=["B"])),
                 ("black=A", {"!sat": "A"}, {}, dict(black=["A"]))]
+    off = 7 * (dt.timedelta(seconds=1) if tname == "ymdh" else L.MIN)
     for k, f in enumerate(files):
         out.append(("exclude#%d" % k, None, dict(exclude=[f.path]),
                     dict(exclude_names=[f.path])))
+        # a period strictly inside the file's coverage that does not contain
+        # the time written in its name (around it for zero-length files)
+        if f.t1 - f.t0 > 2 * off:
+            period = (f.t0 + off, f.t0 + 2 * off)
+        else:
+            period = (f.t0 - off, f.t0 + off)
+        out.append(("exclude-period#%d" % k, None, dict(exclude=[period]),
+                    dict(exclude_periods=[period])))
     return out
 
 
